@@ -883,6 +883,60 @@ def _prefix_tree_methods(trees):
     return methods
 
 
+def rule_set(trees):
+    """S-SET: WBTreeSet is the ordered map with unit values; every operation is the map's operation of the table below, with
+    the result adaptor that turns `previous value` into `was (not) present`, a union merge that yields the unit value and a
+    difference filter that drops every common key."""
+    res = RuleResult("S-SET")
+    t = trees["eqlog-runtime/src/wbtree/set.rs"]
+    if "error" in t:
+        raise AnchorError("set.rs does not parse")
+    loc = "eqlog-runtime/src/wbtree/set.rs"
+    fns = {}
+    for qn, fn, imp in find_fns(t["items"]):
+        if imp is not None and imp["trait"] is None and nospace(imp["ty"]) == "WBTreeSet":
+            fns[fn["n"]] = fn
+    table = {"insert": "self.map.insert(%s,()).is_none()", "contains": "self.map.contains_key(%s)", "remove": "self.map.remove(%s).is_some()",
+             "is_empty": "self.map.is_empty()", "len": "self.map.len()", "clear": "self.map.clear()"}
+    for name, form in table.items():
+        fn = fns.get(name)
+        if fn is None:
+            raise AnchorError("WBTreeSet::%s not found" % name)
+        b = fn["b"]["s"]
+        e = stmt_expr(b[0]) if len(b) == 1 else None
+        ps = [x["n"] for p_ in fn["params"] if kind(p_) == "param" for x in walk(p_["p"]) if kind(x) == "pid"]
+        want = form % ps[0] if "%s" in form else form
+        where = "%s:%s WBTreeSet::%s" % (loc, fn["ln"], name)
+        if e is not None and nospace(expr_str(e)) == want:
+            res.ok()
+        else:
+            res.bad("S-SET:%s:delegation" % name, where, "WBTreeSet::%s is not `%s`" % (name, want))
+    for name, closure_value in (("union", "()"), ("difference", "None")):
+        fn = fns.get(name)
+        if fn is None:
+            raise AnchorError("WBTreeSet::%s not found" % name)
+        ps = [p_["p"]["n"] for p_ in fn["params"] if kind(p_) == "param" and kind(p_["p"]) == "pid"]
+        calls = [x for x in walk(fn["b"]) if mcall(x, name)]
+        where = "%s:%s WBTreeSet::%s" % (loc, fn["ln"], name)
+        ok = len(calls) == 1 and ps and nospace(expr_str(calls[0]["r"])) == "self.map" and len(calls[0]["a"]) == 2 \
+            and nospace(expr_str(calls[0]["a"][0])) == "&%s.map" % ps[0]
+        if ok:
+            res.ok()
+        else:
+            res.bad("S-SET:%s:operands" % name, where, "WBTreeSet::%s is not self.map.%s(&other.map, ..)" % (name, name))
+            continue
+        cl = calls[0]["a"][1]
+        body = cl.get("b") if kind(cl) == "closure" else None
+        if body is not None and kind(body) == "block" and len(body["s"]) == 1:
+            body = stmt_expr(body["s"][0])
+        if body is not None and nospace(expr_str(body)) == closure_value:
+            res.ok()
+        else:
+            res.bad("S-SET:%s:callback" % name, where, "the callback WBTreeSet::%s passes to the map does not evaluate to %s" % (name, closure_value))
+    res.sample({"methods": sorted(fns)})
+    return res
+
+
 def rule_nav(trees):
     """S-NAV: every search in the ordered map compares the *search key* with the node's key and descends left on Less and right
     on Greater: insert, remove, split, get and get_mut are sibling implementations of one navigation and must agree."""
